@@ -359,5 +359,49 @@ def r05_6(ctx):
     return r
 
 
+def r05_7(ctx):
+    """'a rejection never disturbs receiver state': the per-SSRC context keeps a scratch buffer into which the clear header
+    of EVERY arriving packet is re-serialised before authentication - harmless only because the buffer is scratch: its
+    length is set to exactly the header length on each packet, so nothing of an earlier (possibly forged) packet
+    survives. If the buffer only ever grows, one rejected packet with a longer header (a flipped CSRC-count bit is
+    enough) leaves a tail behind, and every later genuine packet whose consumer authenticates the WHOLE buffer (the
+    AES-GCM associated data) is rejected for good. Decided: the function that fills the scratch sets its length to the
+    encoded header length on every path - or else no consumer passes the buffer on unsliced."""
+    r = RuleResult("R05.7", "K4", "the header scratch of a receive context carries nothing over from an earlier packet")
+    fn = "srtp::SrtpPacket::marshal_header_into"
+    b = ctx.body(fn)
+    r.scope.append(fn)
+    exact = [bi for bi, t, p in b.calls() if p and p.endswith("::resize") and len(t["a"]) > 1 and
+             mir.has(b.term_operand(t["a"][1]), lambda x: x[0] == "call" and x[1].endswith("encoded_len"))]
+    exact += [bi for bi, t, p in b.calls() if p and (p.endswith("Vec::<T, A>::clear") or p.endswith("::truncate"))]
+    rets = [i for i, blk in enumerate(b.blocks) if blk["t"]["k"] == "ret" and i not in b.cleanup]
+    always = bool(exact) and all(core.must_pass(b, rb, exact) for rb in rets)
+    whole, n_consumers = [], 0
+    for user in ("srtp::SrtpContext::unprotect", "srtp::SrtpContext::protect"):
+        ub = ctx.body(user)
+        r.scope.append(user)
+        for bi, t, p in ub.calls():
+            if not p or p.endswith("marshal_header_into") or bi in ub.cleanup:
+                continue
+            for a in t["a"]:
+                ta = ub.term_operand(a)
+                if mir.has_field(ta, "auth_scratch") and p.split("::")[-1] in (
+                        "update", "decrypt_in_place_detached", "encrypt_in_place_detached", "decrypt", "encrypt", "chain_update"):
+                    n_consumers += 1
+                    if not mir.has(ta, lambda x: x[0] == "call" and ("::index" in x[1] or "::get" in x[1])):
+                        whole.append((ub, bi, p.split("::")[-1]))
+    r.need("consumers of the header scratch", n_consumers, 2)
+    if always:
+        r.ok({"site": b.where(exact[0]), "length": "set to the encoded header length on every path"})
+        for ub, bi, m in whole:
+            r.ok({"consumer": ub.where(bi), "uses": "whole scratch (exactly this packet's header)"})
+    else:
+        for ub, bi, m in whole:
+            r.violate(ub.name, "scratch:stale-tail:%s" % m, ub.where(bi),
+                      "the header scratch is not cut to this packet's header length on every path of %s, yet %s() is given the whole buffer: "
+                      "a rejected packet with a longer header leaves bytes behind that are then authenticated as part of every later header" % (fn, m))
+    return r
+
+
 def run(ctx):
-    return [r05_1(ctx), r05_2(ctx), r05_3(ctx), r05_4(ctx), r05_5(ctx), r05_6(ctx)]
+    return [r05_1(ctx), r05_2(ctx), r05_3(ctx), r05_4(ctx), r05_5(ctx), r05_6(ctx), r05_7(ctx)]
